@@ -1347,6 +1347,12 @@ func (i *indexImpl) Close() error {
 	i.mutex.Lock()
 	defer i.mutex.Unlock()
 
+	if !i.open {
+		// already closed: closing the underlying index a second time
+		// panics in scorch (close of closed channel)
+		return ErrorIndexClosed
+	}
+
 	indexStats.UnRegister(i)
 
 	i.open = false
